@@ -37,6 +37,7 @@ UNM = [
     (9, '{"??":{"x":5}}', "iInNsS_-", (0, 1, 2), (0, 1, 2)),
     (11, '{"?":5}', "", (0, 1, 2), (0, 1, 2)),
     (12, '{"F1??":5}', DIG, (0,), (0, 2)),
+    (13, '{"?":5}', "", (0, 1), (0, 1, 2)),
 ]
 UNM_THOROUGH = [
     (1, '{"??":5}', "", (0, 1)),
@@ -225,7 +226,7 @@ def obligations(tier):
             kw["covers"] = cv
         L.append(ob(id, ".", fn, args, **kw))
 
-    for t in range(1, 13):
+    for t in range(1, 14):
         for st in (0, 1, 2, 3):
             # t=10 is the diamond type: its only path ends in the known finding, before nothing else can be covered
             add("marshal/t=%d/state=%d" % (t, st), "VerifC15Marshal", [t, st], covers=["marshal-done"] if t != 10 else [])
